@@ -171,3 +171,16 @@ def c01_tag_on_structurally_consumed_node(case, detail):
     if ctx in ('omap-entry', 'pairs-entry'):
         return kind in one_pair_kinds
     return False
+
+
+def c17_cycle_inside_deep_state(case, detail):
+    """a self-referential plain structure (cycle through an instance dict / list / dict only) that sits inside the
+    arguments, state, listitems or dictitems of an object PyYAML builds in one step (python/object/new, python/object/apply,
+    or python/object with __setstate__): the state is constructed eagerly ("deep"), so the inner back-reference meets a
+    node that is still under construction"""
+    spec = case.get('spec') or []
+    if len(spec) != 3 or spec[0] != 'cycle' or spec[1] != 4:
+        return False
+    from .props import c17
+    name = c17.shapes()[spec[2]][0]
+    return name not in ('Plain', 'SetItemDict', 'tuple', 'list', 'dict') and 'unconstructable recursive node' in detail
